@@ -45,6 +45,9 @@ pub enum UnmarshalError {
     /// A message indicated an invalid byteorder in the header
     #[error("A message indicated an invalid byteorder in the header")]
     InvalidByteOrder,
+    /// A message indicated a major protocol version other than 1
+    #[error("A message indicated a major protocol version other than 1")]
+    InvalidProtocolVersion,
     /// A message has an invalid (zero) serial in the header
     #[error("A message has an invalid (zero) serial in the header")]
     InvalidSerial,
